@@ -115,6 +115,29 @@ pub fn replay(input: &str, output: &str) {
                 }
             }
         }
+        // the same file overwritten right away with other content of the same length (one digit of c1 changed): the
+        // parameters are those of the file as it is now
+        if id % 3 == 0 {
+            if let Some(at) = text.find("c1: ") {
+                let end = at + text[at..].find('\n').unwrap_or(text.len() - at);
+                let tok_end = text[at..end].find(" #").map(|x| at + x).unwrap_or(end);
+                let tok = &text[at + 4..tok_end];
+                if let Some(dpos) = tok.rfind(|c: char| c.is_ascii_digit()) {
+                    let d = tok.as_bytes()[dpos] - b'0';
+                    let mut nt = tok.to_string();
+                    nt.replace_range(dpos..dpos + 1, &format!("{}", (d + 1) % 10));
+                    if let Ok(want_c1) = nt.trim().parse::<f64>() {
+                        let text2 = format!("{}{}{}", &text[..at + 4], nt, &text[tok_end..]);
+                        evals += 1;
+                        if let Parsed::Ok(p2) = parse_text(text2.as_bytes(), "v", id) {
+                            if (p2.c1 - want_c1).abs() > 1e-12 {
+                                out.put(json!({"sig": "yaml:rewritten-file-gives-earlier-parameters", "detail": format!("c1 = {} after the file was rewritten with c1: {}; {}", p2.c1, nt, desc), "data": desc}));
+                            }
+                        }
+                    }
+                }
+            }
+        }
         if id == 17 { out.put(json!({"sample": {"variant": desc["variant"], "text": text}})); }
     }
     // ---- round trips of to_yaml
